@@ -2,7 +2,7 @@
    Model: Schema/Dsl.v - the data type mini language (Term parser, build_data_type, the printer of
    PrettyFieldDataType) and the compact field form as a serde value tree (print_field / parse_field
    with CustomField defaults, strategy merging, Null => nullable, validate_field). *)
-From Verif Require Import Dsl Dsl_proofs Field_proofs.
+From Verif Require Import Dsl Dsl_proofs Field_proofs SchemaTables NamesSpec NamesSpec_proofs.
 
 (* Full-strength statement for the field form (kept visible): evaluated inside Coq on every
    generated field of the run (RunC09.oracle: the printer model equals the crate's tree, and the
@@ -82,6 +82,17 @@ Example C09_field_ok_example :
                false [] (Some (b "TupleAsStruct"))).
 Proof. cbn [field_ok]. repeat split. all: try reflexivity. all: try (repeat constructor). all: try (cbn; lia). all: try (unfold i32_lo; lia). all: try (unfold i32_hi; lia). Qed.
 
+(* the names of the type mini language are the source's: the table of what PrettyFieldDataType prints and the table of
+   spellings / argument counts build_data_type accepts are regenerated from schema/serde/{serialize,deserialize}.rs on
+   every run; they equal the tables the model was written against, the model's printer prints the source's name for
+   EVERY model type, and the model's parser reads every spelling of the source (with its arguments) as that type *)
+Theorem C09_type_names_match_source :
+  prints_ok = true /\ parses_ok = true /\ (forall d, print_matches d = true) /\ (parses_match = true /\ unknown_refused = true) /\ strategies_ok = true.
+Proof.
+  split; [exact (proj1 tables_are_expected)|]. split; [exact (proj2 tables_are_expected)|]. split; [exact print_names_match|]. split; [exact parse_names_match|exact strategies_match].
+Qed.
+
 Print Assumptions C09_field_roundtrip.
 Print Assumptions C09_dsl_roundtrip.
 Print Assumptions C09_spellings.
+Print Assumptions C09_type_names_match_source.
